@@ -2007,16 +2007,17 @@ func (d *Data) SendBlocksSpecific(ctx *datastore.VersionedCtx, w http.ResponseWr
 	numBlocks = len(coordarray) / 3
 	blockCoords := make([]dvid.ChunkPoint3d, numBlocks)
 	for i := 0; i < len(coordarray); i += 3 {
-		var xloc, yloc, zloc int
-		xloc, err = strconv.Atoi(coordarray[i])
+		// block coordinates are int32: a larger number is an error, not another block
+		var xloc, yloc, zloc int64
+		xloc, err = strconv.ParseInt(coordarray[i], 10, 32)
 		if err != nil {
 			return
 		}
-		yloc, err = strconv.Atoi(coordarray[i+1])
+		yloc, err = strconv.ParseInt(coordarray[i+1], 10, 32)
 		if err != nil {
 			return
 		}
-		zloc, err = strconv.Atoi(coordarray[i+2])
+		zloc, err = strconv.ParseInt(coordarray[i+2], 10, 32)
 		if err != nil {
 			return
 		}
